@@ -12,9 +12,11 @@
      Layout    Cluster(...)                  cell centres / rotations of hexagonal, 3-sector and square clusters
      DistMat   Cluster.calc_dist_all_users_to_each_cell[_no_wrap_around]  (squared, exact)
      Wrap      Cluster.create_wrap_around_cells  (19 cells): the surrounding copies of the cluster
-     MutNew / MutSetPos / MutSetRot / MutSetRad
-               Cell, CellSquare, Rectangle, Circle and Cell3Sec (with its three sector cells) under any
-               sequence of pos / rotation / radius setter calls (a finite machine: ALL histories are explored)
+     MutNew / MutSetPos / MutMoveRel / MutMovePolar / MutSetRot / MutSetRad / MutAddUser / MutDelUsers
+     WrapSetPos / WrapMoveRel / WrapMovePolar / WrapSetRaises
+               Node, Hexagon, Cell, CellSquare, Rectangle, Circle, Cell3Sec (with its sector cells), Cluster and
+               a CellWrap around a cell under any sequence of public mutators, with users present
+               (a finite machine: ALL histories are explored)
      Place, PlaceCl, PProc   enumerate the (rel) cases: random user placement (cell / cluster route)
                and random point processes; the module supplies the exact polygon / radii the random
                outcome is judged with.
@@ -33,7 +35,8 @@
      BorderPointTwoNearestVertices        get_border_point intersects the ray with the LINE through the
                                           two vertices nearest to centre + radius * direction
      RectanglePosSetterKeepsCorners       setting pos of a Rectangle / CellSquare leaves its corners behind
-     LayoutSkipsCentring, Sec3SetPosKeepsSectors, Sec3SetRadiusKeepsCentres   (plausible regressions)
+     LayoutSkipsCentring, Sec3SetPosKeepsSectors, Sec3SetRadiusKeepsCentres, MoveBypassesPosSetter,
+     WrapUsersUseCachedTranslation, CircleBorderZeroRatioIsOne                 (plausible regressions)
    Trace_Geometry.tla (stage T) validates histories recorded from the real classes against the
    same setter semantics and containment predicate.
 
@@ -58,7 +61,8 @@ CONSTANTS Ops,       \* enabled operations (subset of the names above, lower cas
           UCells,    \* DistMat: cells (ids, clipped to n) that get users
           UAngles,   \* DistMat: directions k (30 k degrees) of the border users (ratio 1/2)
           URel,      \* DistMat: relative positions (points, in units of the cell radius) for add_user
-          MutAlpha,  \* setter machine: [base : seq of [kind, w, h], pos : seq of points, r : seq, rot : seq of degrees]
+          MutAlpha,  \* object machine: [base : seq of [kind, cls, w, h, cell, wrap], pos, wpos : seq of points, r : seq,
+                     \*   rot : seq of degrees, off : seq of user offsets, polar : seq of [rho, k]]
           RelCases,  \* sequence of (rel) cases, see Place / PProc
           Dev        \* [name |-> BOOLEAN]
 
@@ -190,9 +194,15 @@ AsIsBorder(s, rot, k) ==
      THEN HeurBorder(s, rot, k) ELSE ExpBorder(s, rot, k)
 Scaled(s, p, ratio) == IF p = <<>> THEN p ELSE PAdd(s.pos, PScale(ratio, PSub(p, s.pos)))
 
+\* the ratio argument: both ends of its range [0, 1], something tiny, the middle
+Tiny == QF(1, 1024)
+\* the machine's handling of the ratio (deviation: a Circle replaces a ratio of exactly 0 by 1)
+AsIsRatio(s, ratio) == IF Dev.CircleBorderZeroRatioIsOne /\ s.kind = "circle" /\ QIsZero(ratio) THEN Q1 ELSE ratio
 BorderOut(s, rot) ==
    LET B == [k \in 1..12 |-> AsIsBorder(s, rot, k - 1)]
    IN  [verts |-> Verts(s, rot), bp |-> B, half |-> [k \in 1..12 |-> Scaled(s, B[k], Half)],
+        zero |-> [k \in 1..12 |-> Scaled(s, B[k], AsIsRatio(s, Q0))],
+        tiny |-> [k \in 1..12 |-> Scaled(s, B[k], Tiny)],
         \* what the two-nearest-vertices heuristic returns (to recognise the known finding by its value)
         heur |-> IF s.kind # "circle" /\ ~QIsZero(s.rad) THEN [k \in 1..12 |-> HeurBorder(s, rot, k - 1)] ELSE <<>>]
 Border ==
@@ -297,18 +307,36 @@ Wrap ==
         /\ c' = [op |-> "wrap", cl |-> Clusters[i], rot |-> rot]
         /\ out' = WrapOut(Clusters[i], rot)
 
-(* ------------------------------------ shapes under setter calls --------------------------------- *)
-(* Cell (hexagon), CellSquare, Rectangle, Circle and Cell3Sec are objects with pos / rotation / radius
-   setters.  The machine keeps what the objects STORE besides pos, radius, rotation:
+(* ------------------------------------ objects under mutation ------------------------------------ *)
+(* Node, Hexagon, Cell, CellSquare, Rectangle, Circle, Cell3Sec, a Cluster, and a CellWrap around a cell
+   are objects that can be changed after construction.  EVERY public way of changing them is an action:
+       pos = p      move_by_relative_coordinate(d)      move_by_relative_polar_coordinate(rho, angle)
+       rotation = t      radius = r      add_user      delete_all_users
+   on the object itself and, when a CellWrap exists around it, the same on the wrap (two objects: the
+   wrap is a live VIEW of the wrapped cell: its radius, rotation, vertices and users follow the wrapped
+   cell, its position is its own; rotation = / radius = on a wrap raise, as does every mutator of a Cluster).
+   The machine keeps what the objects STORE besides pos, radius, rotation:
      Rectangle / CellSquare  the centre `cpos` its two absolute corner coordinates were built around
      Cell3Sec                 its three sector cells (centre, radius, rotation)
-   and every setter has to keep that in step.  The property: after ANY history of setter calls the
-   object is indistinguishable from a fresh one with the current position, size and rotation.
-   The machine is finite, so all histories are explored.                                         *)
+     cells                    the absolute positions of their users
+     CellWrap                 (deviation only) the translation wrap.pos - cell.pos it was created with
+   and every action has to keep that in step.  The property (MutFresh): after ANY history the object is
+   indistinguishable from a fresh one with the current position, size and rotation, its users sit at
+   the same place RELATIVE to the cell as when they were added and are inside it, and every view of
+   the wrap is the wrapped cell moved to the wrap's position.  The machine is finite (positions,
+   sizes, rotations, displacements from MutAlpha), so ALL histories are explored.               *)
 MutShape(st) == [kind |-> st.kind, pos |-> st.pos, r |-> st.r, w |-> st.w, h |-> st.h, rad |-> Q0, ipos |-> st.pos]
 SecCentres(pos, r, rot) == [j \in 1..3 |-> PAdd(pos, Rot(DegK(rot), SecC0(r)[j]))]
 HexAt(ctr, r, rot) == Translate(RotPoly(DegK(rot), HexV0(r)), ctr)
-FreshStore(st) == [cpos |-> st.pos, secc |-> SecCentres(st.pos, st.r, st.rot), secr |-> SecRadius(st.r), secrot |-> st.rot - 30]
+HasVerts(k)  == k \notin {"node", "cluster"}
+HasRot(k)    == k \notin {"circle", "node"}
+HasRad(k)    == k \in {"hex", "circle", "sec3", "cluster"}
+ClusterOf(st) == [type |-> "simple", n |-> 3, r |-> st.r, pos |-> st.pos]
+UsersAt(pos, offs) == [k \in 1..Len(offs) |-> PAdd(pos, offs[k])]
+FreshStore(st) ==
+   [cpos |-> st.pos, secc |-> SecCentres(st.pos, st.r, st.rot), secr |-> SecRadius(st.r), secrot |-> st.rot - 30,
+    users |-> UsersAt(st.pos, st.offs),
+    wtrans |-> IF st.wpos = <<>> THEN POrigin ELSE PSub(st.wpos, st.pos)]
 \* the vertices the object reports: corners are absolute coordinates around cpos, rotated about pos
 MutVerts(st, store) ==
    IF st.kind \in {"rect", "square"}
@@ -316,50 +344,122 @@ MutVerts(st, store) ==
           IN  [k \in 1..4 |-> PAdd(st.pos, Rot(DegK(st.rot), PSub(PAdd(store.cpos, V[k]), st.pos)))]
      ELSE Verts(MutShape(st), st.rot)
 MutOut(st, store) ==
-   LET V == MutVerts(st, store)
+   LET V == IF HasVerts(st.kind) THEN MutVerts(st, store) ELSE <<>>
        K == PolyCtx(V, QLcm(PolyDen(V), ShapeDen(MutShape(st))))
    IN  [verts |-> V, store |-> store,
         secv  |-> IF st.kind = "sec3" THEN [j \in 1..3 |-> HexAt(store.secc[j], store.secr, store.secrot)] ELSE <<>>,
         \* containment as the object decides it (its own polygon / disc)
-        res   |-> [n \in 1..NG |-> CodeZ(MutShape(st), K, ZGrid(n, K.D))]]
-MutState(b, pos, r, rot, call) ==
-   [op |-> "mut", kind |-> b.kind, w |-> b.w, h |-> b.h, pos |-> pos, r |-> r, rot |-> rot, call |-> call]
-HasRot(k) == k # "circle"
-HasRad(k) == k \in {"hex", "circle", "sec3"}
+        res   |-> IF HasVerts(st.kind) THEN [n \in 1..NG |-> CodeZ(MutShape(st), K, ZGrid(n, K.D))] ELSE <<>>,
+        \* a cluster: the centres of its cells
+        cells |-> IF st.kind = "cluster" THEN LayoutCells(ClusterOf(st), st.rot) ELSE <<>>,
+        \* the views of the wrap: polygon of the wrapped cell at the wrap's position, users moved along
+        wverts |-> IF st.wpos = <<>> THEN <<>> ELSE Verts([MutShape(st) EXCEPT !.pos = st.wpos], st.rot),
+        wusers |-> IF st.wpos = <<>> THEN <<>>
+                   ELSE [k \in 1..Len(store.users) |->
+                           IF Dev.WrapUsersUseCachedTranslation THEN PAdd(store.users[k], store.wtrans)
+                           ELSE PAdd(PSub(store.users[k], st.pos), st.wpos)]]
+MutState(b, pos, r, rot, wpos, call) ==
+   [op |-> "mut", kind |-> b.kind, cls |-> b.cls, w |-> b.w, h |-> b.h, cell |-> b.cell, pos |-> pos, r |-> r, rot |-> rot,
+    offs |-> <<>>, wpos |-> wpos, call |-> call]
+Raises(st) == st.kind = "cluster"                  \* every mutator of a Cluster is disabled
 
 MutNew ==
    /\ "mut" \in Ops /\ c.op = "init"
-   /\ \E b \in 1..Len(MutAlpha.base), p \in 1..Len(MutAlpha.pos), r \in 1..Len(MutAlpha.r), t \in 1..Len(MutAlpha.rot) :
-        LET st == MutState(MutAlpha.base[b], MutAlpha.pos[p], MutAlpha.r[r], MutAlpha.rot[t], <<"new", b, p, r, t>>)
-        IN  /\ HasRot(st.kind) \/ st.rot = 0
+   /\ \E b \in 1..Len(MutAlpha.base), p \in 1..Len(MutAlpha.pos), r \in 1..Len(MutAlpha.r), t \in 1..Len(MutAlpha.rot),
+        wp \in 0..Len(MutAlpha.wpos) :
+        LET base == MutAlpha.base[b]
+            st == MutState(base, MutAlpha.pos[p], MutAlpha.r[r], MutAlpha.rot[t],
+                           IF wp = 0 THEN <<>> ELSE MutAlpha.wpos[wp], <<"new", b, p, r, t, wp>>)
+        IN  /\ HasRot(st.kind) \/ t = 1
             /\ HasRad(st.kind) \/ r = 1
+            /\ (wp > 0) = base.wrap
             /\ c' = st
             /\ out' = MutOut(st, FreshStore(st))
-MutSetPos ==
-   /\ "mut" \in Ops /\ c.op = "mut"
-   /\ \E p \in 1..Len(MutAlpha.pos) :
-        LET st == [c EXCEPT !.pos = MutAlpha.pos[p], !.call = <<"pos", p>>]
+\* the three ways of moving the object: how \in {"pos", "rel", "polar"}; arg identifies the argument
+MoveTo(newpos, how, arg) ==
+   IF Raises(c) THEN c' = [c EXCEPT !.call = <<how, arg, "raises">>] /\ out' = out
+   ELSE LET st == [c EXCEPT !.pos = newpos, !.call = <<how, arg>>]
             fs == FreshStore(st)
+            bypass == Dev.MoveBypassesPosSetter /\ how # "pos"        \* _pos changed behind the pos setter
         IN  /\ c' = st
             /\ out' = MutOut(st, [out.store EXCEPT
-                          !.cpos = IF Dev.RectanglePosSetterKeepsCorners THEN @ ELSE fs.cpos,
-                          !.secc = IF Dev.Sec3SetPosKeepsSectors THEN @ ELSE fs.secc])
+                          !.cpos  = IF Dev.RectanglePosSetterKeepsCorners THEN @ ELSE fs.cpos,
+                          !.secc  = IF Dev.Sec3SetPosKeepsSectors \/ bypass THEN @ ELSE fs.secc,
+                          !.users = IF bypass THEN @ ELSE fs.users,
+                          \* (a cached translation is not refreshed when the wrapped cell moves)
+                          !.wtrans = IF Dev.WrapUsersUseCachedTranslation THEN @ ELSE fs.wtrans])
+MutSetPos ==
+   /\ "mut" \in Ops /\ c.op = "mut"
+   /\ \E p \in 1..Len(MutAlpha.pos) : MoveTo(MutAlpha.pos[p], "pos", p)
+\* move_by_relative_coordinate(d) with d = (a position of the alphabet) - pos, the null move included
+MutMoveRel ==
+   /\ "mut" \in Ops /\ c.op = "mut"
+   /\ \E p \in 1..Len(MutAlpha.pos) : MoveTo(MutAlpha.pos[p], "rel", p)
+\* move_by_relative_polar_coordinate(rho, 30 k degrees) whenever it leads to a position of the alphabet
+MutMovePolar ==
+   /\ "mut" \in Ops /\ c.op = "mut"
+   /\ \E i \in 1..Len(MutAlpha.polar) :
+        LET target == PAdd(c.pos, PScale(MutAlpha.polar[i].rho, Cis(MutAlpha.polar[i].k)))
+        IN  /\ \E p \in 1..Len(MutAlpha.pos) : MutAlpha.pos[p] = target
+            /\ MoveTo(target, "polar", i)
 MutSetRot ==
    /\ "mut" \in Ops /\ c.op = "mut" /\ HasRot(c.kind)
    /\ \E t \in 1..Len(MutAlpha.rot) :
-        LET st == [c EXCEPT !.rot = MutAlpha.rot[t], !.call = <<"rot", t>>]
-            fs == FreshStore(st)
-        IN  /\ c' = st
-            /\ out' = MutOut(st, [out.store EXCEPT !.secc = fs.secc, !.secrot = fs.secrot])
+        IF Raises(c) THEN c' = [c EXCEPT !.call = <<"rot", t, "raises">>] /\ out' = out
+        ELSE LET st == [c EXCEPT !.rot = MutAlpha.rot[t], !.call = <<"rot", t>>]
+                 fs == FreshStore(st)
+             IN  /\ c' = st
+                 /\ out' = MutOut(st, [out.store EXCEPT !.secc = fs.secc, !.secrot = fs.secrot])
 MutSetRad ==
    /\ "mut" \in Ops /\ c.op = "mut" /\ HasRad(c.kind)
    /\ \E r \in 1..Len(MutAlpha.r) :
-        LET st == [c EXCEPT !.r = MutAlpha.r[r], !.call = <<"rad", r>>]
-            fs == FreshStore(st)
+        IF Raises(c) THEN c' = [c EXCEPT !.call = <<"rad", r, "raises">>] /\ out' = out
+        ELSE LET st == [c EXCEPT !.r = MutAlpha.r[r], !.call = <<"rad", r>>]
+                 fs == FreshStore(st)
+             IN  /\ c' = st
+                 /\ out' = MutOut(st, [out.store EXCEPT
+                               !.secc = IF Dev.Sec3SetRadiusKeepsCentres THEN @ ELSE fs.secc,
+                               !.secr = fs.secr])
+\* add_user (absolute position pos + next offset of the alphabet) / delete_all_users
+MutAddUser ==
+   /\ "mut" \in Ops /\ c.op = "mut" /\ c.cell /\ Len(c.offs) < Len(MutAlpha.off)
+   /\ LET o  == MutAlpha.off[Len(c.offs) + 1]
+          st == [c EXCEPT !.offs = Append(@, o), !.call = <<"adduser", Len(c.offs) + 1>>]
+      IN  /\ c' = st
+          /\ out' = MutOut(st, [out.store EXCEPT !.users = Append(@, PAdd(c.pos, o))])
+MutDelUsers ==
+   /\ "mut" \in Ops /\ c.op = "mut" /\ c.cell /\ c.offs # <<>>
+   /\ LET st == [c EXCEPT !.offs = <<>>, !.call = <<"delusers">>]
+      IN  /\ c' = st
+          /\ out' = MutOut(st, [out.store EXCEPT !.users = <<>>])
+\* the CellWrap around the cell: it can be moved in the same three ways; rotation = / radius = raise
+WrapMoveTo(newpos, how, arg) ==
+   LET st == [c EXCEPT !.wpos = newpos, !.call = <<how, arg>>]
+   IN  /\ c' = st
+       /\ out' = MutOut(st, [out.store EXCEPT !.wtrans = PSub(newpos, c.pos)])
+WrapSetPos ==
+   /\ "mut" \in Ops /\ c.op = "mut" /\ c.wpos # <<>>
+   /\ \E p \in 1..Len(MutAlpha.wpos) : WrapMoveTo(MutAlpha.wpos[p], "wpos", p)
+WrapMoveRel ==
+   /\ "mut" \in Ops /\ c.op = "mut" /\ c.wpos # <<>>
+   /\ \E p \in 1..Len(MutAlpha.wpos) :
+        LET st == [c EXCEPT !.wpos = MutAlpha.wpos[p], !.call = <<"wrel", p>>]
         IN  /\ c' = st
-            /\ out' = MutOut(st, [out.store EXCEPT
-                          !.secc = IF Dev.Sec3SetRadiusKeepsCentres THEN @ ELSE fs.secc,
-                          !.secr = fs.secr])
+            \* a move behind the pos setter does not refresh a cached translation
+            /\ out' = MutOut(st, [out.store EXCEPT !.wtrans = IF Dev.MoveBypassesPosSetter THEN @ ELSE PSub(st.wpos, c.pos)])
+WrapMovePolar ==
+   /\ "mut" \in Ops /\ c.op = "mut" /\ c.wpos # <<>>
+   /\ \E i \in 1..Len(MutAlpha.polar) :
+        LET target == PAdd(c.wpos, PScale(MutAlpha.polar[i].rho, Cis(MutAlpha.polar[i].k)))
+            st == [c EXCEPT !.wpos = target, !.call = <<"wpolar", i>>]
+        IN  /\ \E p \in 1..Len(MutAlpha.wpos) : MutAlpha.wpos[p] = target
+            /\ c' = st
+            /\ out' = MutOut(st, [out.store EXCEPT !.wtrans = IF Dev.MoveBypassesPosSetter THEN @ ELSE PSub(target, c.pos)])
+WrapSetRaises ==
+   /\ "mut" \in Ops /\ c.op = "mut" /\ c.wpos # <<>>
+   /\ \E what \in {"wrot", "wrad"} : c' = [c EXCEPT !.call = <<what, 1, "raises">>] /\ out' = out
+\* states are identified without the label of the call that led to them
+MutView == <<IF c.op = "mut" THEN [c EXCEPT !.call = <<>>] ELSE c, out>>
 
 (* ------------------------------------ (rel) cases ----------------------------------------------- *)
 \* random placement: [what |-> "place", s, rot, ratio (a QR3 value), users, sector (0 = whole cell)]
@@ -396,7 +496,8 @@ PProc ==
 (* ------------------------------------ machine --------------------------------------------------- *)
 Idle == [op |-> "init"]
 Init == c = Idle /\ out = <<>>
-Next == Contain \/ Border \/ Layout \/ DistMat \/ Wrap \/ MutNew \/ MutSetPos \/ MutSetRot \/ MutSetRad
+Next == Contain \/ Border \/ Layout \/ DistMat \/ Wrap \/ MutNew \/ MutSetPos \/ MutMoveRel \/ MutMovePolar \/ MutSetRot \/ MutSetRad \/ MutAddUser \/ MutDelUsers
+          \/ WrapSetPos \/ WrapMoveRel \/ WrapMovePolar \/ WrapSetRaises
           \/ Place \/ PlaceCl \/ PProc
 Spec == Init /\ [][Next]_vars
 
@@ -472,6 +573,8 @@ BorderAgrees ==
    c.op = "border" =>
      \A k \in 1..12 : /\ out.bp[k] = ExpBorder(c.s, c.rot, k - 1)
                       /\ out.half[k] = Scaled(c.s, ExpBorder(c.s, c.rot, k - 1), Half)
+                      /\ out.zero[k] = c.s.pos                      \* ratio 0: the centre itself
+                      /\ out.tiny[k] = Scaled(c.s, ExpBorder(c.s, c.rot, k - 1), Tiny)
 BorderLaws ==
    c.op = "border" =>
      LET s == c.s
@@ -563,7 +666,8 @@ WrapLaws ==
 MutFresh ==
    c.op = "mut" =>
      LET fresh == MutShape(c)
-     IN  /\ out.verts = Verts(fresh, c.rot)
+         V     == IF HasVerts(c.kind) THEN Verts(fresh, c.rot) ELSE <<>>
+     IN  /\ out.verts = V
          /\ c.kind \in {"rect", "square"} => out.store.cpos = c.pos
          /\ c.kind = "sec3" =>
                /\ out.store.secc = SecCentres(c.pos, c.r, c.rot)
@@ -571,6 +675,18 @@ MutFresh ==
                /\ out.store.secrot = c.rot - 30
                \* the stored sector hexagons (rotation rot - 30) are the sectors (rotation rot + 30) as point sets
                /\ \A j \in 1..3 : {out.secv[j][i] : i \in 1..6} = {SecHex(fresh, c.rot, j)[i] : i \in 1..6}
+         \* users stay where they were put relative to the cell, hence inside it
+         /\ out.store.users = UsersAt(c.pos, c.offs)
+         /\ c.cell => \A k \in 1..Len(out.store.users) : ExpInside(fresh, c.rot, out.store.users[k])
+         \* a cluster never changes
+         /\ c.kind = "cluster" => out.cells = LayoutCells(ClusterOf(c), c.rot)
+         \* the wrap shows the wrapped cell at the wrap's position
+         /\ c.wpos # <<>> =>
+               LET wshape == [fresh EXCEPT !.pos = c.wpos]
+               IN  /\ out.wverts = Verts(wshape, c.rot)
+                   /\ out.wverts = Translate(V, PSub(c.wpos, c.pos))
+                   /\ out.wusers = UsersAt(c.wpos, c.offs)
+                   /\ \A k \in 1..Len(out.wusers) : ExpInside(wshape, c.rot, out.wusers[k])
 
 (* ------------------------------------ emission -------------------------------------------------- *)
 Emit == EmitEdge([pre |-> c, post |-> c', out |-> out'])
